@@ -695,7 +695,7 @@ pub fn c05_body(case: &HCase, obs: &mut Obs) -> Result<(), String> {
 // ------------------------------------------------------------------------------------------- C11
 
 /// extend `map` (old id -> new id) structurally; both registries are models
-fn iso_extend(a: &MReg, b: &MReg, pairs: &[(u32, u32)]) -> Result<BTreeMap<u32, u32>, String> {
+pub fn iso_extend(a: &MReg, b: &MReg, pairs: &[(u32, u32)]) -> Result<BTreeMap<u32, u32>, String> {
     let mut map: BTreeMap<u32, u32> = BTreeMap::new();
     let mut rev: BTreeMap<u32, u32> = BTreeMap::new();
     let mut q: Vec<(u32, u32)> = pairs.to_vec();
